@@ -146,6 +146,7 @@ JOBS = [
     Job('coeff.Cv', 'coeff::Cv', ['C19', 'C14'], arity=4, select=r'int n', description='cosine coefficient with truncation to the used degree / order'),
     Job('coeff.Ssize', 'coeff::Ssize', ['C19', 'C13', 'C14'], inline=['coeff::Csize'], sat='cadical', timeout=600, description='number of sine coefficients'),
     # ---- geocentric (C07)
+    Job('Geocentric.ctor', 'Geocentric::Geocentric', ['C13', 'C07'], arity=2, description='constructor: parameter validation; establishes the class invariant used by IntReverse'),
     Job('Geocentric.Rotation', 'Geocentric::Rotation', ['C07', 'C13', 'C14'], description='rotation matrix: frame and copied entries'),
     Job('Geocentric.IntReverse', 'Geocentric::IntReverse', ['C07', 'C13', 'C14'], replace=['Math::atan2d', 'Geocentric::Rotation'], timeout=900, sat='cadical',
         description='geocentric -> geodetic: ranges of latitude and longitude, frame, optional matrix pointer'),
